@@ -13,6 +13,9 @@ package token
 //@ define c2all() = c2ok('<', '=') && c2ok('>', '=') && c2ok('=', '=') && c2ok('!', '=') && c2ok('+', '+') && c2ok('-', '-') && c2ok('.', '.') && c2ok('|', '|') && c2ok('&', '&') && c2ok('<', '<') && c2ok('>', '>') && c2ok('=', '>') && c2ok(':', '=')
 //@ define keywordsOK() = keywords != nil && forallv(func(k string) bool { return implies(has(keywords, k), allocated(keywords[k]) && same(keywords[k].literal, k) && isIdentity(keywords[k].tokenType)) })
 //@ define internOK() = interning != nil && forallv(func(k Token) bool { return implies(has(interning, k), allocated(interning[k]) && interning[k].tokenType == k.tokenType && same(interning[k].literal, k.literal)) })
+// ByType (C08): the tokens the parser names in "expected next token" errors are registered.
+//@ define byTypeHas(t) = tToT[t] != nil
+//@ define byTypeOK() = allocated(tToT) && tToT[LAMBDA] != nil && tToT[RPAREN] != nil && tToT[LBRACE] != nil && tToT[LPAREN] != nil && tToT[RBRACKET] != nil && tToT[COMMA] != nil && tToT[RBRACE] != nil && tToT[COLON] != nil
 //@ define tablesOK() = endsOK() && c1all() && c2all() && keywordsOK() && internOK()
 
 //@ func InternToken
